@@ -285,6 +285,22 @@ class CFG(object):
             work.extend(s for s, _ in n.succ)
         return seen
 
+    def dominates(self, a, b):
+        """every path from the entry to b passes through a (b is not reached when a is cut out)"""
+        if a is b:
+            return True
+        seen = set()
+        work = [self.entry]
+        while work:
+            n = work.pop()
+            if n.id in seen or n is a:
+                continue
+            if n is b:
+                return False
+            seen.add(n.id)
+            work.extend(s for s, _ in n.succ)
+        return True
+
     def stmt_nodes(self):
         r = self.reachable()
         return [n for n in self.nodes if n.id in r and n.ast is not None]
